@@ -563,6 +563,13 @@ class LogicTr:
                 if len(tg) == len(st.value.elts) and not any(isinstance(n, ast.Name) and n.id in tg for v in st.value.elts for n in ast.walk(v)):
                     seq = [ast.copy_location(ast.Assign(targets=[t], value=v), st) for t, v in zip(st.targets[0].elts, st.value.elts)]
                     return out + self.block(seq + list(stmts[i + 1:]), indent, path)
+            if isinstance(st, ast.AnnAssign) and st.value is None and isinstance(st.target, ast.Name) and st.simple:
+                # a bare declaration `name: T` of a local inside a function: the annotation is not evaluated and nothing
+                # is bound (a read before an assignment yields an unknown identifier in the generated Lean, i.e. a broken
+                # build, not a silent pass) -- a parameter must not be re-declared
+                if st.target.id in self.params:
+                    raise TranslationError(f"parameter {st.target.id} is re-declared")
+                continue
             if isinstance(st, ast.AnnAssign) and st.value is not None and isinstance(st.target, ast.Name):
                 st = ast.copy_location(ast.Assign(targets=[st.target], value=st.value), st)
             if (isinstance(st, ast.Assign) and len(st.targets) == 1 and isinstance(st.targets[0], ast.Name)
